@@ -4,7 +4,7 @@
 package router
 
 //@ type Router
-//@   invariant wired [C13]: nonnil(self.instance) && self.table != nil && self.ErrorPing != nil && self.HelloPing != nil
+//@   invariant wired [C13]: nonnil(self.instance) && self.table != nil && self.ErrorPing != nil && self.HelloPing != nil && self.connStates != nil
 //@   invariant traffic-needs-tun [C13,C20]: self.handleTraffic.v != 0 ==> self.instance.TunDevice() != nil
 
 // Sending an error ping builds, seals and routes a new frame: it is assumed not to touch the frame being handled
@@ -50,3 +50,45 @@ package router
 //@   callsite chan-send only-admitted-packets [C06]: f.unsealedBy == session && session != nil && src == f.SrcIP() && dst == f.DstIP() && !uf("prefixContains", bool, m.InternalPrefix, dst) && status == connStatusAllowed
 //@   callsite Router.checkPolicy inbound-with-packet-fields [C06]: arg2 && arg3.localIP == dst && arg3.remoteIP == src && arg3.protocol == protocol && arg3.localPort == dstPort
 //@   ensures error-leaves-frame-to-caller [C13]: result != nil ==> f.dblReturnCheck == 0
+
+// Connection states are keyed by a five-tuple (composite map keys are not modelled): that stored entries are
+// non-nil is assumed for getConnState and required of every setConnState call.
+//@ func Router.getConnState
+//@   option trusted
+//@   modifies nothing
+//@   ensures found-entries-are-real: result1 ==> result0 != nil
+//@ func Router.setConnState
+//@   requires entry != nil
+
+// A packet from the local interface enters the mesh (as traffic, or as the key setup preceding it) only if its source
+// is the router's own address, its destination is a non-multicast Mycoria address and the outbound policy admits it.
+//@ pred outboundOK(src netip.Addr, dst netip.Addr, routerIP netip.Addr, status connStatus) = src == routerIP && uf("prefixContains", bool, m.BaseNetPrefix, dst) && !uf("prefixContains", bool, multicastPrefix, dst) && status == connStatusAllowed
+//@ func Router.handleTunPacket
+//@   requires w != nil && len(packetData) <= 1000000 && r.instance.NetStack() != nil && r.instance.TunDevice() != nil
+//@   callsite HelloPingHandler.Send key-setup-only-for-admitted-packets [C06]: outboundOK(src, dst, routerIP, status) && arg1 == dst
+//@   callsite frame.Builder.NewFrameV1 traffic-frame-addresses [C06]: outboundOK(src, dst, routerIP, status) && arg1 == r.instance.Identity().IP && arg2 == dst && arg3 == frame.NetworkTraffic
+//@   callsite Router.RouteFrame only-admitted-packets-enter-the-mesh [C06]: outboundOK(src, dst, routerIP, status)
+//@   callsite Router.checkPolicy outbound-with-packet-fields [C06]: !arg2 && arg3.localIP == src && arg3.remoteIP == dst && arg3.protocol == protocol
+
+// ---- environment of the traffic handlers -------------------------------------------------------------
+// Routing changes only TTL and flow flags of the frame (and caches its parsed destination).
+//@ func Router.RouteFrame
+//@   requires nonnil(f) && f.data != nil
+//@   modifies f.data[1:3], f.dst
+
+// Starting a key exchange and answering the local stack are outside C06: assumed not to touch the packet, the
+// router's configuration or its wiring (trusted frames; bodies covered by the no-panic sweep only).
+//@ func HelloPingHandler.Send
+//@   option trusted
+//@   modifies nothing
+//@   havoc F|state., F|peering.LinkBase, MP|, F|router.HelloPingHandler, F|router.pingHandlerBase
+//@ func Router.respondWithError
+//@   option trusted
+//@   modifies nothing
+//@ func Router.sendICMP6PacketTooBig
+//@   option trusted
+//@   modifies nothing
+//@ func Router.checkSimilarOutboundStatus
+//@   option trusted
+//@   modifies nothing
+//@   havoc F|router.connStateEntry, F|sync/atomic.Uint32
